@@ -112,4 +112,13 @@ CHECKS = {
             {"part": "limiter", "test": "TestLimiter", "quick": {"checks": 5000, "shards": 4}, "thorough": {"checks": 400000, "shards": 16, "timeout": 3000}},
         ],
     },
+    "C13": {
+        "pkg": "c13",
+        "technique": "property-based differential testing (rapid): JSON vs YAML renderings of generated operation streams on identical fake clusters, plus a reference model per operation",
+        "level_text": "Random operation streams in three renderings executed by the real parser and ObjectPatcher against fake clusters; final state, error class and client actions compared with each other and with a reference model; invalid streams must be rejected as a whole. Search, not proof.",
+        "level_note": "Trusted: client-go object tracker as the cluster (patches are applied by the tracker's evanphx/json-patch; the reference uses its own RFC 7386 / 6902-subset evaluator); propagation policies are checked as requested, not as executed by a garbage collector.",
+        "parts": [
+            {"part": "patch", "test": "TestPatch", "quick": {"checks": 640, "shards": 16}, "thorough": {"checks": 30000, "shards": 16, "timeout": 3000}},
+        ],
+    },
 }
